@@ -311,7 +311,8 @@ def dump_service(s, dev, probes):
             "bound": s.device is dev}
 
 
-def dump_device(d, parent, probes):
+def dump_device(d, parent, probes, root=None):
+    root = d if root is None else root
     info = {"type": d.device_type, "friendly": d.friendly_name, "manufacturer": d.manufacturer,
             "manufacturer_url": d.manufacturer_url, "model_desc": d.model_description, "model_name": d.model_name,
             "model_number": d.model_number, "model_url": d.model_url, "serial": d.serial_number, "udn": d.udn,
@@ -320,8 +321,9 @@ def dump_device(d, parent, probes):
     return {"info": info,
             "icons": [{"mime": i.mimetype, "w": i.width, "h": i.height, "d": i.depth, "url": i.url} for i in d.icons],
             "services": [[k, dump_service(s, d, probes)] for k, s in d.services.items()],
-            "embedded": [[k, dump_device(e, d, probes)] for k, e in d.embedded_devices.items()],
-            "bound": d.parent_device is parent}
+            "embedded": [[k, dump_device(e, d, probes, root)] for k, e in d.embedded_devices.items()],
+            # bound to its place in the tree: the parent it hangs under AND the root it reports
+            "bound": d.parent_device is parent and d.root_device is root}
 
 
 # ======================================================================================= Coq printers
@@ -666,6 +668,9 @@ def mk_case(rng, d, strict, render, base=None):
             "def": d, "render": render}
     if twin:
         case["twin"] = twin
+    lat = rng.choice([None, None, None, "reversed", "mixed"])
+    if lat:
+        case["latency"] = lat
     return case
 
 
@@ -952,11 +957,19 @@ class Plugin:
         docs = dict(tscpds)
         docs.update(scpds)
 
+        seen_urls = {}
+
         class Requester(UpnpRequester):
             async def async_http_request(self, method, url, headers=None, body=None):  # noqa: ARG002
                 assert method == "GET"
                 if twin in ("concurrent", "concurrent2"):
                     await asyncio.sleep(0)
+                if case.get("latency"):
+                    # a transport that really suspends, and answers later requests earlier than earlier ones (the n-th
+                    # distinct document waits fewer loop turns): which document a service gets must not depend on it
+                    seen_urls.setdefault(url, len(seen_urls))
+                    for _ in range(max(0, 6 - 2 * seen_urls[url]) if case["latency"] == "reversed" else seen_urls[url] % 3):
+                        await asyncio.sleep(0)
                 if url == base:
                     return desc[0], {}, desc[1]
                 if url == tbase:
@@ -1108,6 +1121,8 @@ class Plugin:
             return
         if case.get("twin"):
             yield {k: v for k, v in case.items() if k != "twin"}
+        if case.get("latency"):
+            yield {k: v for k, v in case.items() if k != "latency"}
 
         def variants(d):
             for i in range(len(d["subs"])):
